@@ -51,6 +51,28 @@ Outcome call(Setup& s, const Case& c)
 {
     std::srand((unsigned)c.i("srand", 1));
     tapkee::verif::shuffle_seed((unsigned)c.i("shuffle", 1));
+    if (c.i("plabel", 0))
+    {
+        // Permuted labels: the sample at position i is labelled perm[i] and its data live in column perm[i] of a storage
+        // matrix. The embedding is still "row i describes the sample at position i", so every reference computed from s.X by
+        // position stays valid; a library that confuses positions with the values the iterators point at does not.
+        int N = s.N;
+        std::vector<int> perm = iota_indices(N);
+        Rng g((uint64_t)c.i("dseed", 1) * 31 + 7);
+        g.shuffle(perm);
+        Mat S(s.D, N);
+        for (int i = 0; i < N; ++i)
+            S.col(perm[i]) = s.X.col(i);
+        MatrixCallbacks ecb(S);
+        configure_callbacks(ecb, c);
+        Outcome o = guarded_embed(perm, ecb, params_from_case(c));
+        if (ecb.bad_labels.load() > 0)
+        {
+            o.what = "std::exception:callback-invoked-with-a-non-sample";
+            o.documented = false;
+        }
+        return o;
+    }
     return guarded_embed(s.idx, *s.cb, params_from_case(c));
 }
 
